@@ -1148,7 +1148,7 @@ def summarize(ctx, pool, progs, jobs, results, table, ca2, ca3):
     flag_on = collections.Counter(k for r in ok for k, v in r["fv"].items() if v)
     ctx.coverage.update({
         "evaluations": len(ok), "distinct_nontrivial": len(seen),
-        "programs": {"total": len(progs), "accepted_under_some_row": len(seen), "by_origin": dict(per_origin)},
+        "programs": len(progs), "program_counts": {"total": len(progs), "accepted_under_some_row": len(seen), "by_origin": dict(per_origin)},
         "jobs": len(jobs), "verdicts": dict(verdicts),
         "compiler_invocations": cmds,
         "compilations_per_std": {"gcc -std=c99 -Wall -Werror -Wno-unused-label": len(ok), "gcc -std=c11 -O2 -Wall -Werror -Wno-unused-label": len(ok),
